@@ -15,9 +15,13 @@ Has(k) == k \in Range(members)
 Init == l = 1 /\ members = <<>> /\ ub = <<>> /\ nclose = 0 /\ nbindw = 0 /\ devs = {} /\ taint = ""
 
 AboutTypes == {"rr", "nack", "pli", "sr", "ccfb"}
-\* number of report items in a wire event that are about SSRC s
-AboutCount(e, s) == Cardinality({i \in DOMAIN e.sum : e.sum[i].t \in AboutTypes /\ e.sum[i].ssrc = s})
-Bump(e) == [s \in DOMAIN ub |-> ub[s] + (IF e.a = "wire" /\ e.t = "rtcp" /\ ~e.app THEN AboutCount(e, s) ELSE 0)]
+\* number of report items of type t in a wire event that are about SSRC s.  ub[s] counts them per type since the Unbind of
+\* s: every report type is written by its own member (NACK: nack generator, RR: receiver reports, SR: sender reports, PLI,
+\* CCFB), i.e. by its own loop goroutine, and each of those may have one emission in flight when Unbind returns.
+AboutCount(e, s, t) == Cardinality({i \in DOMAIN e.sum : e.sum[i].t = t /\ e.sum[i].ssrc = s})
+Zero == [t \in AboutTypes |-> 0]
+Bump(e) == [s \in DOMAIN ub |-> [t \in AboutTypes |->
+              ub[s][t] + (IF e.a = "wire" /\ e.t = "rtcp" /\ ~e.app THEN AboutCount(e, s, t) ELSE 0)]]
 
 \* P4 "beyond one already in flight": one emission per LOOP GOROUTINE can be in flight when Unbind returns.  A script that
 \* calls BindRTCPWriter twice has started two loops (every loop-driven member starts one per call), each of which may have
@@ -27,12 +31,12 @@ InFlight == IF nbindw > 1 THEN nbindw ELSE 1
 Accept(e) ==
   IF e.a = "pre" THEN TRUE
   ELSE IF e.a = "wire" THEN /\ (~e.closed \/ e.app)                               \* P1 (application packets pass through)
-                            /\ \A s \in DOMAIN ub : Bump(e)[s] <= InFlight        \* P4
+                            /\ \A s \in DOMAIN ub : \A t \in AboutTypes : Bump(e)[s][t] <= InFlight        \* P4
   ELSE IF e.a = "end" THEN ~e.aborted /\ e.leaked = 0                             \* P2
   ELSE ~e.blocked /\ e.panic = ""                                                 \* P3
 
 Step(e) ==
-  /\ ub' = IF e.a \in {"unbindl", "unbindm"} /\ ~e.skipped THEN [s \in DOMAIN ub \cup {e.s} |-> IF s = e.s THEN 0 ELSE ub[s]]
+  /\ ub' = IF e.a \in {"unbindl", "unbindm"} /\ ~e.skipped THEN [s \in DOMAIN ub \cup {e.s} |-> IF s = e.s THEN Zero ELSE ub[s]]
            ELSE IF e.a \in {"bindl", "bindm"} THEN [s \in DOMAIN ub \ {e.s} |-> ub[s]]
            ELSE Bump(e)
   /\ nclose' = nclose + (IF e.a = "close" THEN 1 ELSE 0)
@@ -53,6 +57,11 @@ Next ==
   /\ LET e == Trace[l] IN
      IF e.a = "reset" THEN
         /\ members' = e.members /\ ub' = <<>> /\ nclose' = 0 /\ nbindw' = 0 /\ devs' = {} /\ taint' = "" /\ l' = l + 1
+     \* (a trace abandoned because BindRemoteStream blocked without a loop is still held to one thing: on the code as it is
+     \* Close releases the blocked call and returns - a Close that blocks as well is a new violation)
+     ELSE IF taint = "C11.ForcePLIBlocksWithoutLoop" /\ e.a = "close" /\ e.blocked THEN
+        /\ PrintT(<<"MISMATCH", l, "event", e.a, "members", members, "ub", ub>>)
+        /\ taint' = "?" /\ l' = l + 1 /\ UNCHANGED <<members, ub, nclose, nbindw, devs>>
      ELSE IF taint # "" THEN l' = l + 1 /\ UNCHANGED <<members, ub, nclose, nbindw, devs, taint>>
      ELSE IF Accept(e) THEN
         /\ Step(e) /\ devs' = devs \cup NewDevs(e) /\ l' = l + 1 /\ UNCHANGED <<members, taint>>
